@@ -283,3 +283,36 @@ def r10(rr, repo):
     # the count really is what eligibility rests on: send_maybe picks among outputs with `out_do_send and out_nrequested`
     picks = [c for c in ast.walk(za.S_maybe) if isinstance(c, ast.comprehension) and any('nrequested' in U(i) for i in c.ifs)]
     rr.ob('the output for a frame is chosen among outputs with at least one counted request', bool(picks), za.mod, za.S_maybe, witness=U(picks[0].ifs[0])[:100] if picks else 'no filter on the request count', key='bal-pick-counted')
+
+
+@rule('C05.R11', "a listener leaves no trace in what the synchronized consumers get: its CLOSE does not withdraw the publisher's permission to send (only a synchronized client's CLOSE does), the id it asks for "
+                 "does not enter the 'which balanced output is furthest behind' maximum, and when an ephemeral SOURCE closes, the half received set it leaves behind is dropped (it can never complete, and "
+                 "must not be completed by the next publisher on that address)")
+def r11(rr, repo):
+    za = anchors(repo)
+    # (a) CLOSE of an ephemeral client
+    wd = [n for n in ast.walk(za.S_poll) if isinstance(n, ast.Assign) and U(n.targets[0]) == 'do_send' and U(n.value) == 'False' and any('MSG_ID_CLOSE' in U(t) for t, pol in q.guards_of(n, stop=za.S_poll) if pol)]
+    rr.floor('withdrawals of the send permission on the CLOSE path', len(wd), 1, za.mod, za.S_poll)
+    for n in wd:
+        g = [(U(t), pol) for t, pol in q.guards_of(n, stop=za.S_poll)]
+        spared = any(('ephemeral' in t and ((not pol and not t.startswith('not ')) or (pol and t.startswith('not ')))) for t, pol in g)
+        rr.ob("the CLOSE of an ephemeral client does not withdraw the permission to send", spared, za.mod, n, witness=' && '.join(('' if pol else 'not ') + t for t, pol in g)[-200:], key='eph-close-no-withdraw')
+    # (b) the balanced maximum
+    loop, paths = client_loop_paths(za)
+    st = {id(e.node): e for p in paths for e in p.events if e.kind == 'store' and isinstance(e.value, ast.Tuple) and len(e.value.elts) == 3}
+    i_eph = za.client_fields.index('ephemeral')
+    for e in st.values():
+        third = e.value.elts[2]
+        uses_max = any(isinstance(c, ast.Call) and U(c.func) == 'max' for c in ast.walk(third))
+        cond = isinstance(third, ast.IfExp) and U(third.test).endswith(f'[1][{i_eph}]') and not any(isinstance(c, ast.Call) and U(c.func) == 'max' for c in ast.walk(third.body))
+        if uses_max:
+            rr.ob("balanced: an ephemeral client's id does not enter the maximum that ranks the outputs", cond, za.mod, e.node, witness=U(third)[-200:], key='eph-not-in-max')
+        else:
+            rr.unresolved('balanced: the ranking term of an output is not a max() over its clients', za.mod, e.node, witness=U(third)[-120:], key='eph-not-in-max')
+    # (c) CLOSE of an ephemeral source at the receiver
+    closes = [n for n in ast.walk(za.R_once) if isinstance(n, ast.If) and 'MSG_ID_CLOSE' in U(n.test)]
+    rr.floor('CLOSE handlers in recv_once', len(closes), 1, za.mod, za.R_once)
+    for h in closes:
+        drops = [c for c in q.calls_in(h) if U(c.func).endswith('.new_recv') and not c.args and not c.keywords]
+        okc = any(any(pol and 'sender_eph' in U(t) for t, pol in q.guards_of(c, stop=h)) or any(pol and 'ephemeral' in U(t) for t, pol in q.guards_of(c, stop=h)) for c in drops)
+        rr.ob("when an ephemeral source closes, a half received set of it is dropped", okc, za.mod, h, witness=f'new_recv() calls in the CLOSE handler: {len(drops)}', key='eph-close-drops-partial')
